@@ -120,7 +120,7 @@ def sim_jobs(tier, only_bounds=False):
     S2 = [("A", "EVSE", 208, 0), ("B", "DEADBAND", 240, 0)]
     S3 = [("A", "EVSE", 208, 0), ("B", "CC", 120, 0), ("C", "EVSE", 240, 0)]
     if tier == "quick":
-        cfgs = [(S2, (0, 1), 3, "ideal", 1, 5), (S2, (0, 0), 3, "stepwise", 2, 60)]
+        cfgs = [(S2, (0, 1), 3, "ideal", 1, 7), (S2, (0, 0), 3, "stepwise", 2, 90)]
         if only_bounds:
             cfgs = cfgs[:2]
     else:
